@@ -220,6 +220,9 @@ def run(ctx):
     ctx.note('replayed_states', n)
     tlc.cleanup(res.workdir)
     trace_validation(ctx)
+    # the window arithmetic all four operations are built on is proved for all integers (TLAPS)
+    from . import c19
+    c19.proofs(ctx, modules=('SliceLaws',))
     ctx.assumptions += ['multiply with a non-zero fill value: weight-0 and outside-image cells may hold the fill value, fill*weight or 0 (the statement leaves it open); strict when fill is 0',
                         'image data are the distinct even integers 2(10y+x+1); weights 0, 1/2, 1']
 
